@@ -17,7 +17,7 @@ VARIABLE hist
 mvars == <<obj, disk, hist>>
 View == <<obj, disk>>
 
-Key(n) == (CHOOSE p \in KeyTable : p[1] = n)[2]
+Key(n) == KeyOf(n)
 K_COMBOS == Key("COMBOS")
 K_CREDIT == Key("CREDIT")
 V_E == <<>>
@@ -31,22 +31,39 @@ N0 == <<48, 48, 48, 48>>                                         \* 0000
 N1 == <<49, 48, 48, 49, 10, 48, 77, 48, 48>>                     \* 1001 / 0M00
 N2 == <<50, 48, 48, 48, 10, 51, 49, 49, 49, 10, 48, 48, 48, 48, 10, 48, 48, 48, 48>>   \* hold head, tail + hand
 
-ItemKeys == {K_TITLE, K_STOPS}
+(* Focus = "timing": timing properties on the simfile and on a chart, the SSC version, and the chart's notes timed *)
+V_B160 == <<48, 61, 49, 54, 48>>         \* "0=160"
+V_B2 == <<48, 61, 49, 54, 48, 44, 49, 61, 56, 48>>           \* "0=160,1=80"
+V_B80 == <<48, 61, 56, 48>>          \* "0=80"
+V_S1 == <<49, 61, 48, 46, 53>>           \* "1=0.5"
+V_S2 == <<50, 61, 48, 46, 50, 53>>           \* "2=0.25"
+V_W1 == <<49, 61, 49>>           \* "1=1"
+V_O5 == <<48, 46, 53>>           \* "0.5"
+V_069 == <<48, 46, 54, 57>>          \* "0.69"
+V_07 == <<48, 46, 55>>           \* "0.7"
+NT == <<49, 48, 48, 48, 10, 48, 49, 48, 48, 10, 48, 48, 49, 48, 10, 48, 48, 48, 49>>             \* 1000 / 0100 / 0010 / 0001
+TimingVals(k) == IF k = K_BPMS THEN {V_B160, V_B2} ELSE IF k \in {K_STOPS, K_FREEZES} THEN {V_E, V_S1}
+                 ELSE IF k = K_WARPS THEN {V_E, V_W1} ELSE IF k = K_OFFSET THEN {V_O5} ELSE IF k = K_VERSION THEN {V_069, V_07} ELSE {V_E}
+ItemKeys == IF Focus = "timing" THEN {K_BPMS, K_STOPS, K_WARPS, K_VERSION} \cup (IF Fmt0 = "sm" THEN {K_FREEZES} ELSE {K_OFFSET})
+            ELSE {K_TITLE, K_STOPS}
             \cup (IF Fmt0 = "sm" \/ Focus \in {"tosm", "tossc"} THEN {K_FREEZES} ELSE {})
             \cup (IF Focus \in {"save", "tosm", "tossc"} THEN {K_VERSION} ELSE {})
             \cup (IF Focus = "tosm" THEN {K_COMBOS} ELSE {})
-ValsOf(k) == IF k = K_TITLE THEN (IF Focus = "save" THEN {V_E, V_A, V_B} ELSE {V_E, V_A})
+ValsOf(k) == IF Focus = "timing" THEN TimingVals(k) ELSE
+             IF k = K_TITLE THEN (IF Focus = "save" THEN {V_E, V_A, V_B} ELSE {V_E, V_A})
              ELSE IF k \in {K_STOPS, K_FREEZES} THEN {V_E, V_ST}
              ELSE IF k = K_VERSION THEN {V_VER}
              ELSE IF k = K_COMBOS THEN {CV!DefaultValue("COMBOS"), V_COMBO2}
              ELSE {V_E}
-AttrNames == {K_TITLE, K_STOPS}
-NotesVals == IF Focus = "edit" THEN {N0, N1, N2} ELSE {N0, N1}
+AttrNames == IF Focus = "timing" THEN {K_STOPS} ELSE {K_TITLE, K_STOPS}
+NotesVals == IF Focus = "edit" THEN {N0, N1, N2} ELSE IF Focus = "timing" THEN {NT} ELSE {N0, N1}
 SMChartOf(st, n) == [fields |-> <<st, V_E, V_E, V_E, V_E, n>>, extra |-> <<>>]
 NewCharts(fmt) == IF fmt = "sm" THEN {SMChartOf(V_E, n) : n \in NotesVals}
                   ELSE {<<[k |-> nk, v |-> n]>> : nk \in {K_NOTES, K_NOTES2}, n \in NotesVals}
-ChartItemNames == {K_NOTES, K_CREDIT, K_STOPS}
-ChartValsOf(name) == IF name = K_NOTES THEN NotesVals ELSE IF name = K_STOPS THEN {V_E, V_ST2} ELSE {V_E, V_A}
+ChartItemNames == IF Focus = "timing" THEN {K_BPMS, K_STOPS, K_WARPS, K_OFFSET} ELSE {K_NOTES, K_CREDIT, K_STOPS}
+ChartValsOf(name) == IF Focus = "timing" THEN (IF name = K_BPMS THEN {V_E, V_B80} ELSE IF name = K_STOPS THEN {V_E, V_S2}
+                                               ELSE IF name = K_WARPS THEN {V_E, V_ST} ELSE {V_E, V_O5})
+                     ELSE IF name = K_NOTES THEN NotesVals ELSE IF name = K_STOPS THEN {V_E, V_ST2} ELSE {V_E, V_A}
 
 (* conversion templates (the caller's own; non-empty, as an empty template counts as "not given") *)
 T_SSC == <<[k |-> K_VERSION, v |-> V_VER], [k |-> K_TITLE, v |-> V_A]>>
@@ -82,9 +99,9 @@ MRemoveChart == \E j \in DOMAIN obj.charts : RemoveChart(j) /\ H([op |-> "remove
 MSwapCharts == Len(obj.charts) >= 2 /\ obj.charts[1] # obj.charts[2] /\ SwapCharts(1, 2) /\ H([op |-> "swapcharts", i |-> 1, j |-> 2])
 MSetChartItem == \E j \in DOMAIN obj.charts : \E name \in ChartItemNames : \E v \in ChartValsOf(name) :
                    /\ obj.fmt = "ssc"
-                   /\ MHas(obj.charts[j], ChartSel(obj.charts[j], name)) \/ Len(obj.charts[j]) < 3
+                   /\ MHas(obj.charts[j], ChartSel(obj.charts[j], name)) \/ Len(obj.charts[j]) < (IF Focus = "timing" THEN 4 ELSE 3)
                    /\ SetChartItem(j, name, v) /\ H([op |-> "setchartitem", j |-> j, name |-> name, v |-> v])
-MDelChartItem == \E j \in DOMAIN obj.charts : \E k \in {K_CREDIT, K_STOPS} : \E res \in {"ok", "KeyError"} :
+MDelChartItem == \E j \in DOMAIN obj.charts : \E k \in (IF Focus = "timing" THEN {K_BPMS, K_STOPS} ELSE {K_CREDIT, K_STOPS}) : \E res \in {"ok", "KeyError"} :
                    DelChartItem(j, k, res) /\ H([op |-> "delchartitem", j |-> j, k |-> k, res |-> res])
 MSetChartField == \E j \in DOMAIN obj.charts : \E f \in {1, 6} : \E v \in (IF f = 6 THEN NotesVals ELSE {V_E, V_A}) :
                    SetChartField(j, f, v) /\ H([op |-> "setchartfield", j |-> j, f |-> f, v |-> v])
@@ -108,9 +125,14 @@ MReadTiming == \E name \in {K_STOPS} :
                 /\ p.ok
                 /\ UNCHANGED svars /\ H([op |-> "readtiming", name |-> name, evs |-> p.evs])
 
+MTimeNotes == \E j \in DOMAIN obj.charts : \E opt \in {"fake", "drop", "keep"} :
+                /\ TimeNotesInDomain(obj, j)
+                /\ LET res == TimedNotesOf(obj, j, opt) IN TimeNotes(j, opt, res) /\ H([op |-> "timenotes", j |-> j, opt |-> opt, res |-> res])
+TimingNext == MSetKey \/ MDelKey \/ MSetAttr \/ MDelAttr \/ MAppendChart \/ MSetChartItem \/ MDelChartItem \/ MTimeNotes
 EditNext == MSetKey \/ MDelKey \/ MGetAttr \/ MSetAttr \/ MDelAttr \/ MAppendChart \/ MRemoveChart \/ MSwapCharts
             \/ MSetChartItem \/ MDelChartItem \/ MSetChartField \/ MReadNotes \/ MCountNotes \/ MReadTiming
-Next == \/ EditNext
+Next == \/ (Focus = "timing" /\ TimingNext)
+        \/ (Focus # "timing" /\ EditNext)
         \/ (Focus \in {"save", "tossc", "tosm"} /\ (MSave \/ MReopen))
         \/ (Focus \in {"tossc", "tosm"} /\ (MToSSC \/ MToSM))
 Spec == Init /\ [][Next]_mvars
@@ -147,4 +169,22 @@ InvConvertRoundTrip ==
        /\ \A i \in DOMAIN obj.items : MHas(back.items, obj.items[i].k) /\ MGet(back.items, obj.items[i].k) = obj.items[i].v
        /\ Len(back.charts) = Len(obj.charts)
        /\ \A j \in DOMAIN obj.charts : \A f \in 1..6 : CV!Get(back.charts[j], SMFieldKeys[f]) = obj.charts[j].fields[f]
+(* split timing is all-or-nothing (C15) composed with the timeline (C11, C13): while a chart is the source of the timing   *)
+(* data, no edit of the SIMFILE's own properties - its VERSION apart - changes the times of that chart's notes, and vice versa *)
+SourceIsolation ==
+  [][\A j \in DOMAIN obj.charts :
+       (/\ j \in DOMAIN obj'.charts /\ TimeNotesInDomain(obj, j) /\ TimeNotesInDomain(obj', j)
+        /\ UsesChart(obj, j) = UsesChart(obj', j)
+        /\ ChartNotesText(obj, j) = ChartNotesText(obj', j)
+        /\ (IF UsesChart(obj, j) THEN obj'.charts[j] = obj.charts[j]
+            ELSE \A k \in {K_BPMS, K_STOPS, K_FREEZES, K_DELAYS, K_WARPS, K_OFFSET} :
+                   MHas(obj.items, k) = MHas(obj'.items, k) /\ (MHas(obj.items, k) => MGet(obj.items, k) = MGet(obj'.items, k))))
+       => TimedNotesOf(obj', j, "keep") = TimedNotesOf(obj, j, "keep")]_mvars
+(* the times of a single-player chart's notes never decrease along the chart, and a dropped / faked note is exactly an unhittable one *)
+InvTimesMonotone ==
+  \A j \in DOMAIN obj.charts : TimeNotesInDomain(obj, j) =>
+     LET tn == TimedNotesOf(obj, j, "keep")  dr == TimedNotesOf(obj, j, "drop")  fk == TimedNotesOf(obj, j, "fake") IN
+     /\ \A a, b \in DOMAIN tn : (a < b /\ tn[a].p = tn[b].p) => tn[a].tm <= tn[b].tm
+     /\ Len(dr) <= Len(fk) /\ Len(fk) <= Len(tn)
+     /\ \A a \in DOMAIN fk : fk[a].t = 70 => \E b \in DOMAIN tn : tn[b].tm = fk[a].tm /\ tn[b].c = fk[a].c /\ tn[b].t \in {49, 70}
 =============================================================================
